@@ -58,13 +58,20 @@ pub struct Desc {
 /// p1/p2 interface-disjoint, equal length; p3 longer, shares p1's first hop (and AS 1-2 with
 /// another egress); p4 = p1 with one interface changed and running through the denied AS; p5 has no
 /// metadata at all (interfaces differ from all others so that its fingerprint is its own).
-pub const UNIVERSE: [Desc; 5] = [
+pub const UNIVERSE: [Desc; 8] = [
     Desc { name: "p1", first_eg: 1, mids: &[("1-2", 1, 2), ("1-5", 1, 2)], last_in: 1, has_meta: true },
     Desc { name: "p2", first_eg: 2, mids: &[("1-3", 1, 2), ("1-7", 1, 2)], last_in: 2, has_meta: true },
     Desc { name: "p3", first_eg: 1, mids: &[("1-2", 1, 3), ("1-6", 1, 2), ("1-8", 1, 2)], last_in: 3, has_meta: true },
     Desc { name: "p4", first_eg: 1, mids: &[("1-2", 1, 2), ("1-9", 1, 4)], last_in: 1, has_meta: true },
     Desc { name: "p5", first_eg: 5, mids: &[("1-2", 5, 5), ("1-5", 5, 5)], last_in: 5, has_meta: false },
+    // twins of p1: same interface ids (=> same data-plane fingerprint) but another policy verdict
+    Desc { name: "p1d", first_eg: 1, mids: &[("1-9", 1, 2), ("1-5", 1, 2)], last_in: 1, has_meta: true },
+    Desc { name: "p1n", first_eg: 1, mids: &[("1-2", 1, 2), ("1-5", 1, 2)], last_in: 1, has_meta: false },
+    // same length as p1, shares p1's first hop and transit link 1-2#2 (what IfDown/ConnDown on p1 report), differs afterwards
+    Desc { name: "p6", first_eg: 1, mids: &[("1-2", 1, 2), ("1-5", 1, 3)], last_in: 4, has_meta: true },
 ];
+/// equal-length paths whose mutual rank is a tie when both arrive as new candidates
+pub const TIE_GROUP: [usize; 3] = [0, 1, 7];
 
 /// Reference ACL evaluation of `ACL` (written from the ACL language: the first entry whose hop
 /// predicate matches a hop decides; "- 1-9" denies every hop in AS 1-9, default allow). A path whose
@@ -100,9 +107,40 @@ pub fn mk_path(id: usize, expiry: u32) -> ScionPath {
     ScionPath::new(src, dst, ScionDpPathView::Standard(view), md, None)
 }
 
-/// Fingerprint -> universe index.
+/// Fingerprint -> universe index (the lowest index among fingerprint twins).
 pub fn fp_table() -> BTreeMap<DpPathFingerprint, usize> {
-    (0..UNIVERSE.len()).map(|i| (mk_path(i, T0).fingerprint(), i)).collect()
+    let mut m = BTreeMap::new();
+    for i in 0..UNIVERSE.len() {
+        m.entry(mk_path(i, T0).fingerprint()).or_insert(i);
+    }
+    m
+}
+/// Identify a path object: fingerprint, then (twins) metadata presence and the transit ASes it names.
+pub fn identify(p: &ScionPath) -> Option<usize> {
+    let fp = p.fingerprint();
+    let ases: Option<Vec<IsdAsn>> = p.metadata().and_then(|m| m.interfaces.as_ref()).map(|v| v.iter().map(|i| i.interface.isd_asn).collect());
+    (0..UNIVERSE.len()).find(|i| {
+        let d = &UNIVERSE[*i];
+        if mk_path_cached_fp(*i) != fp {
+            return false;
+        }
+        match &ases {
+            None => !d.has_meta,
+            Some(a) => {
+                let mut want = vec![ia(SRC)];
+                for (m, _, _) in d.mids {
+                    want.push(ia(m));
+                    want.push(ia(m));
+                }
+                want.push(ia(DST));
+                d.has_meta && *a == want
+            }
+        }
+    })
+}
+fn mk_path_cached_fp(i: usize) -> DpPathFingerprint {
+    static T: std::sync::OnceLock<Vec<DpPathFingerprint>> = std::sync::OnceLock::new();
+    T.get_or_init(|| (0..UNIVERSE.len()).map(|i| mk_path(i, T0).fingerprint()).collect())[i]
 }
 
 // ---------------------------------------------------------------------------------------------
@@ -122,6 +160,13 @@ pub enum Set {
     P123,
     /// p4, p5, p1, p2, p3 (rejected ones first; 3 acceptable paths, > max_cached when that is 2)
     Big,
+    /// p1's fingerprint through the denied AS
+    P1d,
+    /// p1's fingerprint without metadata
+    P1n,
+    P1dP2,
+    /// p1, p6 (shares p1's transit link), p3 (longer, avoids that link)
+    P163,
 }
 impl Set {
     pub fn name(self) -> &'static str {
@@ -135,6 +180,10 @@ impl Set {
             Set::P12 => "Ok{p1,p2}",
             Set::P123 => "Ok{p1,p2,p3}",
             Set::Big => "Ok{p4,p5,p1,p2,p3}",
+            Set::P1d => "Ok{p1d}",
+            Set::P1n => "Ok{p1n}",
+            Set::P1dP2 => "Ok{p1d,p2}",
+            Set::P163 => "Ok{p1,p6,p3}",
         }
     }
     pub fn ids(self) -> &'static [usize] {
@@ -147,13 +196,17 @@ impl Set {
             Set::P12 => &[0, 1],
             Set::P123 => &[0, 1, 2],
             Set::Big => &[3, 4, 0, 1, 2],
+            Set::P1d => &[5],
+            Set::P1n => &[6],
+            Set::P1dP2 => &[5, 1],
+            Set::P163 => &[0, 7, 2],
         }
     }
     pub fn has_profile(self) -> bool {
         matches!(self, Set::P1 | Set::P12 | Set::P123 | Set::Big)
     }
     pub fn from_name(s: &str) -> Option<Set> {
-        [Set::Err, Set::Empty, Set::Rej, Set::NoMeta, Set::P1, Set::P2, Set::P12, Set::P123, Set::Big].into_iter().find(|x| x.name() == s)
+        [Set::Err, Set::Empty, Set::Rej, Set::NoMeta, Set::P1, Set::P2, Set::P12, Set::P123, Set::Big, Set::P1d, Set::P1n, Set::P1dP2, Set::P163].into_iter().find(|x| x.name() == s)
     }
 }
 /// "same" = un-renewed: the path comes back with the expiry it had the last time a lookup returned it
@@ -229,6 +282,9 @@ pub fn alphabet() -> Vec<Out> {
     }
     for set in [Set::P1, Set::P12] {
         v.push(Out { set, prof: 4, tie: 0 });
+    }
+    for set in [Set::P1d, Set::P1n, Set::P1dP2] {
+        v.push(Out { set, prof: 0, tie: 0 });
     }
     v
 }
